@@ -54,6 +54,8 @@ type GenesisCfg struct {
 	BuiltinDids string
 	// RawGenesis, when set, is used as the complete application genesis (export/import round trip)
 	RawGenesis saoapp.GenesisState
+	// InitialHeight of the chain started from RawGenesis: the first block still to be executed (export height + 1)
+	InitialHeight int64
 }
 
 type Chain struct {
@@ -240,6 +242,7 @@ func NewChain(cfg GenesisCfg) *Chain {
 		Validators:      []abci.ValidatorUpdate{},
 		ConsensusParams: simapp.DefaultConsensusParams,
 		AppStateBytes:   stateBytes,
+		InitialHeight:   cfg.InitialHeight,
 	})
 	c.Height = 1
 	c.AppHash = []byte{}
